@@ -191,7 +191,7 @@ def check(run):
     })
     run.assumptions += [
         "goroutines parked in wg.Wait / select / Accept are scheduled once enabled (Go runtime; observed within generous bounds, not proved)",
-        "sync.WaitGroup: Done is atomic in the model and releases the waiter at once; the model flags every Add(1) on a counter that already reached zero (C19_waitgroup_reuse_refuted / C19_partial_waitgroup_reuse_only_after_zero), whether the runtime then panics depends on the scheduling of the released wg.Wait goroutine",
+        "sync.WaitGroup: Done is atomic in the model and releases the waiter at once; C19_no_waitgroup_reuse proves that the adapter never Adds to a counter that reached zero (the pre-repair panic 'WaitGroup is reused before previous Wait has returned' is a regression family of the harness)",
         "deadline behaviour of Read is C11's subject; only 'times out when nothing is buffered, not early' is observed here",
         "the harness observes at quiescence (bounded waits); the acceptor tolerates lag by tracking every state reachable through unobservable steps of the accept goroutines",
         "byte transport between the two ends of a stream (C06/C07) is taken as a FIFO of written chunks",
